@@ -14,7 +14,7 @@ def uw(blk):
             'll_memset.0': blk, 'll_memcpy.0': blk, 'll_memmove.0': blk, 'll_memmove.1': blk}
 
 
-def q(entry, elt, cap, k, first=None, budget=300, solver='minisat'):
+def q(entry, elt, cap, k, first=None, budget=900, solver='minisat'):
     cfg = {'ELT': elt, 'CAP': cap, 'KSTEPS': k}
     if first is not None: cfg['FIRST'] = first
     esz = 8 if elt == 1 else 4
